@@ -141,7 +141,7 @@ CoveringGood(cells, cov) ==
 (***************************************************************************)
 VARIABLES
     pc,       \* control: scene construction, then the phases of findEdges
-    scene,    \* [cells, inc, d, lb, inside]
+    scene,    \* [cells, inc, d, lb, inside] (while it is built: [cells, inc, wit, d, lbs])
     opts,     \* [mr, limit, err, inc, brute, tUses, center]
     limit,    \* e.distanceLimit
     results,  \* e.results: sequence of [d, s, e]   (s = 0: an edge; e = -1: interior of shape s)
@@ -467,6 +467,10 @@ ResultsExact ==
                   \A i \in 1..Len(results) : results[i] = T[i]
 
 NoPanic == pc # "panic"
+
+\* the scenes handed to the algorithm are exactly the admissible ones
+SceneAdmissible ==
+    pc \notin {"scene-cells", "scene-edges", "scene-bounds"} => Admissible(scene, scene.lb)
 
 \* the covering used by the search is what initCovering is specified to produce
 CoveringOK == pc = "scene-edges" => CoveringGood(scene.cells, Covering(scene.cells))
